@@ -195,6 +195,9 @@ def cases(tier, seed):
             i += 1
     for j in range(18):
         out.append(_twolat(gen.rng_for(1008, 5000 + j), j))
+    from . import c08_dtype
+
+    out.extend(c08_dtype.cases(tier))  # weights relation on integer / float32 typed inputs
     nrand = 900 if tier == "quick" else 16000
     for j in range(nrand):
         rng = gen.rng_for(seed, 8, j)
@@ -1012,6 +1015,10 @@ def _run_twolat(case, obs):
 
 # ------------------------------------------------------------------------------------------------
 def run_case(case, obs):
+    if case["kind"] == "dtype":
+        from . import c08_dtype
+
+        return c08_dtype.run_case(case, obs)
     obs.tag(cls=case["cls"], op=case["rel"], container=case.get("cont"), cplx=bool(case.get("cplx", False)))
     obs.cell(f"cls:{case['cls']}", f"rel:{case['rel']}", f"kind:{case['kind']}")
     if case["kind"] == "twolat":
